@@ -42,7 +42,7 @@ pub fn root() -> String {
 }
 
 pub fn families() -> Vec<Box<dyn DynFamily>> {
-    vec![Box::new(fam::a1::A1), Box::new(fam::a2::A2), Box::new(fam::a3::A3), Box::new(fam::a4::A4), Box::new(fam::a5::A5), Box::new(fam::a6::A6), Box::new(fam::a7::A7), Box::new(fam::a8::A8), Box::new(fam::a9::A9 { locked: true }), Box::new(fam::a9::A9 { locked: false }), Box::new(fam::b1::B1), Box::new(fam::b2::B2), Box::new(fam::b3::B3), Box::new(fam::b4::B4), Box::new(fam::b5::B5), Box::new(fam::b6::B6), Box::new(fam::g0::G0)]
+    vec![Box::new(fam::a1::A1 { pass_only: false }), Box::new(fam::a1::A1 { pass_only: true }), Box::new(fam::a2::A2), Box::new(fam::a3::A3), Box::new(fam::a4::A4), Box::new(fam::a5::A5), Box::new(fam::a6::A6), Box::new(fam::a7::A7), Box::new(fam::a8::A8), Box::new(fam::a9::A9 { locked: true }), Box::new(fam::a9::A9 { locked: false }), Box::new(fam::b1::B1), Box::new(fam::b2::B2), Box::new(fam::b3::B3), Box::new(fam::b4::B4), Box::new(fam::b5::B5), Box::new(fam::b6::B6), Box::new(fam::b7::B7), Box::new(fam::g0::G0)]
 }
 
 fn level_of(prop: &str) -> &'static str {
